@@ -117,7 +117,13 @@ pub fn exec_op<R: Runner>(r: &mut R, op: &Op) -> Result<QueryResult, DbError> {
         Op::SelectAliases { ids } => r.q(SelectAliasesQuery(qids(ids))),
         Op::SelectAllAliases => r.q(SelectAllAliasesQuery {}),
         Op::SearchIndex(k, v) => r.q(search_index_query(k, v)),
-        Op::Case(_) | Op::Dump | Op::TxnBegin | Op::TxnFail | Op::TxnCommit | Op::Bad(_) => Err(
+        Op::Case(_)
+        | Op::Dump
+        | Op::TxnBegin
+        | Op::TxnFail
+        | Op::TxnCommit
+        | Op::Reopen
+        | Op::Bad(_) => Err(
             DbError::query(DbErrorType::NotAllowed, "verif: not a query op"),
         ),
     }
